@@ -123,6 +123,9 @@ type vfStep struct {
 type vfC20Case struct {
 	Enc   int      `json:"enc"` // index into vfEncodings
 	Steps []vfStep `json:"steps"`
+	// ResetOnly: the decompressor is reset and reused without a Close in between ("reset and reused" rather than
+	// "closed and reused"): after a read, good or bad, the next Reset follows directly
+	ResetOnly bool `json:"resetOnly,omitempty"`
 }
 
 // vfPool mimics connect-go's compressionPool around ONE instance of each kind
@@ -133,7 +136,19 @@ type vfPool struct {
 	comp      connect.Compressor
 	decomp    connect.Decompressor
 	discarded int
+	resetOnly bool
+	// sinkClosed: set when a compressor closed the writer it was given
+	sinkClosed string
 }
+
+// vfClosableBuffer is a sink that could be closed (a pipe, a file): a compressor that is closed or recycled must
+// leave it open - the next message of the same body goes to the same sink.
+type vfClosableBuffer struct {
+	bytes.Buffer
+	closed int
+}
+
+func (b *vfClosableBuffer) Close() error { b.closed++; return nil }
 
 func (p *vfPool) compress(data []byte, chunked bool) ([]byte, error) {
 	var err error
@@ -142,7 +157,12 @@ func (p *vfPool) compress(data []byte, chunked bool) ([]byte, error) {
 			return nil, err
 		}
 	}
-	var dst bytes.Buffer
+	var dst vfClosableBuffer
+	defer func() {
+		if dst.closed > 0 && p.sinkClosed == "" {
+			p.sinkClosed = fmt.Sprintf("the %v compressor closed the sink it was writing to (%d time(s))", p.enc, dst.closed)
+		}
+	}()
 	p.comp.Reset(&dst)
 	if len(data) > 0 { // bytes.Buffer.WriteTo makes no Write call for an empty buffer
 		if chunked && len(data) > 3 {
@@ -199,6 +219,9 @@ func (p *vfPool) decompress(src []byte) ([]byte, error) {
 }
 
 func (p *vfPool) putDecomp() error {
+	if p.resetOnly {
+		return nil // (the next use resets it)
+	}
 	if err := p.decomp.Close(); err != nil {
 		p.decomp = nil
 		p.discarded++
@@ -249,7 +272,7 @@ func vfCorrupt(stream []byte, st vfStep) []byte {
 
 func vfC20Check(c vfC20Case) error {
 	enc := vfEncodings[c.Enc%len(vfEncodings)]
-	pool := &vfPool{enc: enc}
+	pool := &vfPool{enc: enc, resetOnly: c.ResetOnly}
 	defer pool.release()
 	prevFailed := false
 	for i, st := range c.Steps {
@@ -260,6 +283,9 @@ func vfC20Check(c vfC20Case) error {
 			out, err := pool.compress(data, st.Chunked)
 			if err != nil {
 				return verifkit.Violf("compress-error", "%s: %v", where, err)
+			}
+			if pool.sinkClosed != "" {
+				return verifkit.Violf("compressor-closed-sink", "%s: %s", where, pool.sinkClosed)
 			}
 			dec, err := vfIndepDecode(enc, out)
 			if err != nil || !bytes.Equal(dec, data) {
@@ -352,7 +378,7 @@ func vfGenData(t *rapid.T) vfData {
 func TestVerifC20Histories(t *testing.T) {
 	verifkit.Run(t, "C20Histories", verifkit.Spec[vfC20Case]{
 		Gen: func(t *rapid.T) vfC20Case {
-			c := vfC20Case{Enc: rapid.IntRange(0, 5).Draw(t, "enc")}
+			c := vfC20Case{Enc: rapid.IntRange(0, 5).Draw(t, "enc"), ResetOnly: rapid.IntRange(0, 3).Draw(t, "resetOnly") == 0}
 			for i, n := 0, rapid.IntRange(1, 12).Draw(t, "nsteps"); i < n; i++ {
 				c.Steps = append(c.Steps, vfStep{
 					Op: rapid.SampledFrom(vfOps).Draw(t, "op"), Data: vfGenData(t),
@@ -639,7 +665,7 @@ func TestVerifC20Flips(t *testing.T) {
 			if idx%shards != shard {
 				continue
 			}
-			c := vfC20Case{Enc: enc, Steps: []vfStep{b, {Op: "decode", Data: other}, {Op: "decode", Data: msg}}}
+			c := vfC20Case{Enc: enc, Steps: []vfStep{b, {Op: "decode", Data: other}, {Op: "decode", Data: msg}}, ResetOnly: idx%3 == 0}
 			err := verifkit.SafeCall(func() error { return vfC20Check(c) })
 			en.Rec.ObserveHash(uint64(idx), "enc:"+vfEncodings[enc].String()+" "+b.Op, true)
 			if idx%499 == 7 {
